@@ -80,7 +80,25 @@ def _shorter_than(n):
 
 
 def pred_lang(t, var):
+    """var may be one name or a set of names that all denote the same text"""
+    if isinstance(var, (set, frozenset, list, tuple)):
+        names = set(var)
+        canon = sorted(names)[0]
+
+        class R(ast.NodeTransformer):
+            def visit_Name(self, n):
+                return ast.Name(id=canon, ctx=n.ctx) if n.id in names else n
+        import copy
+        from .astutil import clone
+        return pred_lang(R().visit(clone(t)), canon)
     ALL = Lang.all_strings()
+    if isinstance(t, ast.Constant) and isinstance(t.value, bool):
+        return ALL if t.value else Lang.empty()
+    if isinstance(t, ast.IfExp):
+        c = pred_lang(t.test, var)
+        a = pred_lang(t.body, var)
+        b = pred_lang(t.orelse, var)
+        return c.intersect(a).union(c.complement().intersect(b))
     if isinstance(t, ast.UnaryOp) and isinstance(t.op, ast.Not):
         return pred_lang(t.operand, var).complement()
     if isinstance(t, ast.BoolOp):
@@ -93,6 +111,10 @@ def pred_lang(t, var):
     if _is_var(t, var):
         # truthiness: non-empty
         return Lang.literal(b'').complement()
+    if isinstance(t, ast.Call) and ast.unparse(t.func) in (
+            'os.path.isabs', 'posixpath.isabs') and len(t.args) == 1 and \
+            _is_var(t.args[0], var):
+        return Lang.literal(b'/').concat(ALL)
     if isinstance(t, ast.Call) and isinstance(t.func, ast.Attribute) and \
             _is_var(t.func.value, var) and len(t.args) == 1 and \
             not t.keywords:
